@@ -70,7 +70,7 @@ func (d *dialer) SetOption(n string, v interface{}) error {
 
 	switch n {
 	case mangos.OptionMaxRecvSize:
-		if b, ok := v.(int); ok {
+		if b, ok := v.(int); ok && b >= 0 {
 			d.maxRcvSize = b
 			return nil
 		}
@@ -200,7 +200,7 @@ func (l *listener) SetOption(n string, v interface{}) error {
 
 	switch n {
 	case mangos.OptionMaxRecvSize:
-		if b, ok := v.(int); ok {
+		if b, ok := v.(int); ok && b >= 0 {
 			l.maxRcvSize = b
 			return nil
 		}
